@@ -348,6 +348,11 @@ func init() {
 			for _, it := range coreItemsFiltered(tier, c09Scenario, nil, []int{0, 1}, 0, func(ns NamedSkel) bool { return hasMultiFieldStruct(ns.S) }) {
 				items = append(items, it)
 			}
+			// every struct-level test failing by default: two failing fields next to failing record-level tests within k=2
+			for _, it := range coreItemsFiltered(tier, c09Scenario, func(a *Alpha) { a.Lite = true; a.StructFails = true }, []int{0, 1}, 2, func(ns NamedSkel) bool { return hasMultiFieldStruct(ns.S) }) {
+				it.Name = "failing-record-tests/" + it.Name
+				items = append(items, it)
+			}
 			items = append(items, Item{Name: "input-keys", MaxDevs: -1, Run: c09InputKeysScenario})
 			items = append(items, Item{Name: "input-keys-flat", MaxDevs: -1, Run: c09FlatKeysScenario})
 			items = append(items, Item{Name: "large-sibling-lists", MaxDevs: -1, Run: c09LargeListsScenario})
